@@ -125,6 +125,10 @@ class Pool():
         if not isinstance(worker, Worker):
             raise ValueError('Worker expected')
 
+        if not hasattr(worker.results_endpoint, 'fileno'):
+            # e.g. thread and remote workers created with their default (in-process) results queue
+            raise ValueError('Cannot attach {}: the pool waits for results of all its workers at once, which requires the worker to be created with results_pipe=pyworkers.utils.Pipe()'.format(worker))
+
         with self._workers_lock:
             if worker.id in self._workers:
                 return
